@@ -630,3 +630,125 @@ def rf2b(run):
     if n < 3:
         raise F.AnalysisBroken('only %d allocations stored into MIR_item_t.data found (3 confirmed by hand)' % n)
     return n
+
+
+# ---------------------------------------------------------------------------------------------
+# RF78: a container created into a local variable is destroyed or handed over on every path
+# ---------------------------------------------------------------------------------------------
+
+def rf78(run, units=('c2mir', 'mir', 'gen')):
+    rule = 'RF78'
+    run.rule(rule, 'a VARR / HTAB / bitmap created into a local variable of a function is, on every path from the creation to a return of that '
+                   'function, destroyed, returned, stored into a longer-lived object or passed to another function (which takes it over); a '
+                   'path that reaches the exit with none of these loses the only reference (a block the user allocator never gets back)')
+    n = 0
+    for u in units:
+        tu = run.tu(u)
+        for f in tu.func_list:
+            if not f.file.startswith('/repo') or f.cfg_raw is None or f.name.startswith(('VARR_', 'HTAB_', 'bitmap_', 'DLIST_')):
+                continue
+            creates = []
+            for x in f.walk():
+                if x['k'] == 'CallExpr' and CRE.match(x.get('callee') or ''):
+                    a = F.call_args(x)
+                    v = None
+                    for a_ in a[:1]:
+                        a_ = F.strip(a_)
+                        if a_['k'] == 'UnaryOperator' and a_['op'] == '&':
+                            a_ = F.strip(a_['c'][0])
+                        if a_['k'] == 'DeclRefExpr' and a_.get('dk') == 'local':
+                            v = a_['n']
+                    par = f.parent.get(x['i'])
+                    pn = f.nodes[par] if par is not None else None
+                    if v is None and pn is not None and pn['k'] == 'BinaryOperator' and pn['op'] == '=' and F.strip(pn['c'][0])['k'] == 'DeclRefExpr' \
+                            and F.strip(pn['c'][0]).get('dk') == 'local':
+                        v = F.strip(pn['c'][0])['n']
+                    if v is not None:
+                        creates.append((x, v))
+            if not creates:
+                continue
+            cfg = f.cfg
+            for cx, v in creates:
+                def consumes(e, v=v, cx=cx):
+                    for y in cfg.local_walk(e):
+                        if y is cx:
+                            continue
+                        if y['k'] == 'CallExpr':
+                            cal = y.get('callee') or ''
+                            for ai, a_ in enumerate(F.call_args(y)):
+                                a0 = F.strip(a_)
+                                if a0['k'] == 'UnaryOperator' and a0['op'] == '&':
+                                    a0 = F.strip(a0['c'][0])
+                                if a0['k'] == 'DeclRefExpr' and a0['n'] == v:
+                                    if DES.match(cal):
+                                        return True
+                                    if not cal.startswith(('VARR_', 'HTAB_', 'bitmap_')):
+                                        return True      # handed to another function
+                                    if ai > 0 and cal.startswith(('VARR_', 'HTAB_')):
+                                        return True      # stored as an element of another container
+                        if y['k'] == 'ReturnStmt' and any(z['k'] == 'DeclRefExpr' and z['n'] == v for z in F.walk(y)):
+                            return True
+                        if y['k'] == 'BinaryOperator' and y['op'] == '=' and any(z['k'] == 'DeclRefExpr' and z['n'] == v for z in F.walk(y['c'][1])) \
+                                and F.strip(y['c'][0])['k'] in ('MemberExpr', 'ArraySubscriptExpr', 'UnaryOperator', 'DeclRefExpr'):
+                            l = F.strip(y['c'][0])
+                            if not (l['k'] == 'DeclRefExpr' and l.get('dk') == 'local' and l['n'] == v):
+                                return True      # stored somewhere (another variable, a field)
+                        if y['k'] == 'DeclStmt':
+                            for d in y['decls']:
+                                if d.get('init') is not None and any(z['k'] == 'DeclRefExpr' and z['n'] == v for z in F.walk(d['init'])) and \
+                                        F.strip(d['init'])['k'] in ('DeclRefExpr', 'InitListExpr', 'CompoundLiteralExpr'):
+                                    return True
+                    return False
+                cb = cfg.block_of(cx)
+                if cb is None:
+                    continue
+                # within the creating block after the creation
+                B = cfg.blocks[cb]
+                after, done = False, False
+                for e in cfg.top_elems(B):
+                    if any(y is cx for y in F.walk(e)):
+                        after = True
+                        if consumes(e):
+                            done = True
+                        continue
+                    if after and consumes(e):
+                        done = True
+                leak = None
+                if not done:
+                    cons = {b for b, BB in cfg.blocks.items() if b != cb and any(consumes(e) for e in cfg.top_elems(BB))}
+                    # after the creation the variable is not NULL: an `if (v != NULL)` / `if (v == NULL)` has one feasible edge
+                    dead_edges = set()
+                    for b, BB in cfg.blocks.items():
+                        if BB.cond is None or len(BB.succs) != 2:
+                            continue
+                        ct = F.src(F.strip(BB.cond)).replace(' ', '').strip('()')
+                        if ct in ('%s!=0' % v, '%s!=NULL' % v, v) and BB.succs[1] is not None:
+                            dead_edges.add((b, BB.succs[1]))
+                        elif ct in ('%s==0' % v, '%s==NULL' % v, '!%s' % v) and BB.succs[0] is not None:
+                            dead_edges.add((b, BB.succs[0]))
+                    # the variable set to NULL after a hand-over is an explicit "nothing left to destroy"
+                    reach, work = set(), [cb]
+                    while work:
+                        b = work.pop()
+                        if b in reach:
+                            continue
+                        reach.add(b)
+                        if b in cons and b != cb:
+                            continue
+                        for s_ in cfg.live_succs(b):
+                            if (b, s_) not in dead_edges:
+                                work.append(s_)
+                    reach -= cons
+                    # the error function does not return
+                    exits = [b for b in reach if b == cfg.exit or any(e['k'] == 'ReturnStmt' for e in cfg.blocks[b].elems)]
+                    exits = [b for b in exits if not cfg.blocks[b].noreturn]
+                    if exits:
+                        leak = exits[0]
+                n += 1
+                run.functions_analysed.add((u, f.name))
+                run.ob(rule, (u, f.name, cx['l']), leak is None, {'site': '%s:%d %s' % (f.relfile(), cx['l'], f.name), 'container': v} if n % 8 == 1 or leak is not None else None)
+                if leak is not None:
+                    run.violation(rule, f, 'container %s lost on a path' % v, 'the container created into `%s` at line %d reaches the end of %s on a path '
+                                  'that neither destroys it nor hands it to anything: its blocks are never returned to the allocator' % (v, cx['l'], f.name),
+                                  line=cx['l'])
+    return n
